@@ -126,6 +126,8 @@ def monitor(case, obs):
       continue
     dl = c['issued'] + c['timeout']
     limit = _ceil(r, dl)
+    if c['timeout'] <= 0:
+      limit = c['issued']      # deadline already passed when the call entered: it must fail at once (same tick)
     done = c['done']
     if len(done) > 1 or completes.get(cid, 0) > 1:
       v.append(('completed-twice', 'call %s completed %d times (%s)' % (cid, max(len(done), completes.get(cid, 0)), done)))
@@ -247,8 +249,8 @@ def to_coq(case, obs):
   per-call terms are conjoined through a list-typed case: see COQ_CASE_TYPE below."""
   terms = []
   for cid, c in sorted(obs['calls'].items()):
-    if c.get('issue_error'):
-      continue
+    if c.get('issue_error') or c['timeout'] <= 0:
+      continue       # (calls entering with a deadline already in the past are checked by the monitor only)
     terms.append(_call_term(case['spec'], cid, c, obs['events']))
   return C.lst(terms)
 
